@@ -3,7 +3,7 @@
    conversion, the test registry and the test functions (Section variables = universally quantified). *)
 
 From Coq Require Import List NArith ZArith QArith Qround Bool Lia.
-From Verif Require Import model.Lang model.Router.
+From Verif Require Import model.Lang model.Router proofs.LangProofs.
 Import ListNotations.
 Open Scope N_scope.
 
@@ -704,4 +704,540 @@ Proof.
       * intros res H; discriminate.
 Qed.
 
+(* ======================================================================================================== *)
+(* The statements of C07 (props/C07.v), sentence by sentence.                                                  *)
+(* ======================================================================================================== *)
+
+(* "the category" a UUID denotes: the first category of the router, in definition order, that carries it (category
+   UUIDs are not checked for uniqueness when a definition is read) *)
+Definition category_with (b : base_router) (u : uuid) (c : category) : Prop :=
+  u <> no_uuid
+  /\ exists pre post, b_categories b = pre ++ c :: post /\ c_uuid c = u /\ Forall (fun c' => c_uuid c' <> u) pre.
+
+(* the exit of a node a UUID denotes *)
+Definition exit_with (nd : node) (u : uuid) (e : exit_def) : Prop :=
+  exists pre post, n_exits nd = pre ++ e :: post /\ e_uuid e = u /\ Forall (fun e' => e_uuid e' <> u) pre.
+
+Lemma find_category_of_first cats u c pre post :
+  cats = pre ++ c :: post -> c_uuid c = u -> Forall (fun c' => c_uuid c' <> u) pre -> find_category cats u = Some c.
+Proof.
+  intros -> Hu Hpre. induction Hpre as [|c0 pre Hc0 Hpre IH]; cbn [app find_category].
+  - apply N.eqb_eq in Hu. rewrite Hu. reflexivity.
+  - apply N.eqb_neq in Hc0. rewrite Hc0. exact IH.
+Qed.
+
+Lemma category_with_find b u c :
+  category_with b u c <-> (u <> no_uuid /\ find_category (b_categories b) u = Some c).
+Proof.
+  split.
+  - intros (Hne & pre & post & Hcats & Hu & Hpre). split; [exact Hne|].
+    eapply find_category_of_first; eassumption.
+  - intros (Hne & Hf). split; [exact Hne|]. apply find_category_first. exact Hf.
+Qed.
+
+Lemma find_exit_of_first exits u e pre post :
+  exits = pre ++ e :: post -> e_uuid e = u -> Forall (fun e' => e_uuid e' <> u) pre -> find_exit exits u = Some e.
+Proof.
+  intros -> Hu Hpre. induction Hpre as [|e0 pre He0 Hpre IH]; cbn [app find_exit].
+  - apply N.eqb_eq in Hu. rewrite Hu. reflexivity.
+  - apply N.eqb_neq in He0. rewrite He0. exact IH.
+Qed.
+
+Lemma exit_with_find nd u e : exit_with nd u e <-> find_exit (n_exits nd) u = Some e.
+Proof.
+  split.
+  - intros (pre & post & Hex & Hu & Hpre). eapply find_exit_of_first; eassumption.
+  - apply find_exit_first.
+Qed.
+
+Lemma category_with_unique b u c1 c2 : category_with b u c1 -> category_with b u c2 -> c1 = c2.
+Proof.
+  intros H1 H2. apply category_with_find in H1. apply category_with_find in H2.
+  destruct H1 as [_ H1]. destruct H2 as [_ H2]. rewrite H1 in H2. inversion H2. reflexivity.
+Qed.
+
+(* ---- sentence 1: the switch router ------------------------------------------------------------------------ *)
+
+(* the events of the default branch: converting an error operand to text is logged *)
+Definition default_events (operand_tpl : text) : list event :=
+  match to_xtext (operand_of operand_tpl) with None => [EvOperandTextError] | Some _ => [] end.
+
+Lemma switch_first_match_spec b operand_tpl cases default prev :
+  let operand := operand_of operand_tpl in
+  let input := operand_text operand_tpl in
+  let R := route_switch' b operand_tpl cases default prev in
+  (* the first case, in definition order, whose test matches: the exit of its category; the cases before it only
+     leave their events behind (argument evaluation, and an error event for a test that errored) *)
+  (forall pre c post m x mt cat,
+      cases = pre ++ c :: post -> Forall (passed_over operand) pre -> matches operand c m x ->
+      opt_to_xtext value to_xtext m = Some mt -> category_with b (k_cat c) cat ->
+      R = through b prev cat mt input (extra_json x)
+                  (operand_events operand_tpl ++ flat_map (skip_events operand) pre
+                   ++ arg_events c ++ extra_events c x))
+  (* otherwise the default category's exit *)
+  /\ (forall cat,
+      Forall (passed_over operand) cases -> category_with b default cat ->
+      R = through b prev cat input input None
+                  (operand_events operand_tpl ++ flat_map (skip_events operand) cases
+                   ++ default_events operand_tpl))
+  (* no default: no category (the empty exit), nothing saved *)
+  /\ (Forall (passed_over operand) cases -> default = no_uuid ->
+      R = {| ro_res := RExit no_uuid input; ro_saved := None;
+             ro_events := operand_events operand_tpl ++ flat_map (skip_events operand) cases |})
+  (* these are all the possibilities, up to cases whose test cannot be used at all (see switch_rejects_spec) *)
+  /\ (Forall (passed_over operand) cases
+      \/ exists pre c post, cases = pre ++ c :: post /\ Forall (passed_over operand) pre
+           /\ (registered (k_test c) = false
+               \/ (registered (k_test c) = true /\ case_result operand c = TOther)
+               \/ exists m x, matches operand c m x)).
+Proof.
+  cbn zeta. split; [|split; [|split]].
+  - intros pre c post m x mt cat Hc Hpre Hm Hmt Hcat.
+    apply category_with_find in Hcat. destruct Hcat as [Hne Hf].
+    eapply route_switch_first_match; eassumption.
+  - intros cat Hall Hcat. apply category_with_find in Hcat. destruct Hcat as [Hne Hf].
+    apply route_switch_default; assumption.
+  - intros Hall ->. apply route_switch_no_category. exact Hall.
+  - apply cases_exhaustive.
+Qed.
+
+(* a router as the engine accepts it (SwitchRouter.Validate): every test is registered, every case names a
+   category, the default (if any) too; and tests that keep to their contract: an error or a test result whose
+   match converts to text *)
+Definition well_formed_switch (b : base_router) (cases : list case_def) (default : uuid) : Prop :=
+  Forall (fun c => registered (k_test c) = true /\ exists cat, category_with b (k_cat c) cat) cases
+  /\ (default = no_uuid \/ exists cat, category_with b default cat).
+
+Definition tests_behave (operand : value) (cases : list case_def) : Prop :=
+  Forall (fun c => case_result operand c <> TOther
+                   /\ forall m x, case_result operand c = TObject true m x -> opt_to_xtext value to_xtext m <> None)
+         cases.
+
+(* for such routers the three branches of the sentence are exhaustive *)
+Lemma switch_total_spec b operand_tpl cases default :
+  let operand := operand_of operand_tpl in
+  well_formed_switch b cases default -> tests_behave operand cases ->
+  (exists pre c post m x mt cat,
+      cases = pre ++ c :: post /\ Forall (passed_over operand) pre /\ matches operand c m x
+      /\ opt_to_xtext value to_xtext m = Some mt /\ category_with b (k_cat c) cat)
+  \/ (Forall (passed_over operand) cases /\ exists cat, category_with b default cat)
+  \/ (Forall (passed_over operand) cases /\ default = no_uuid).
+Proof.
+  cbn zeta. intros [Hwf Hdef] Hbeh.
+  destruct (cases_exhaustive (operand_of operand_tpl) cases) as [Hall | (pre & c & post & Hc & Hpre & Hdec)].
+  - right. destruct Hdef as [-> | Hcat]; [right; split; [exact Hall|reflexivity] | left; split; assumption].
+  - left. subst cases.
+    unfold tests_behave in Hbeh. rewrite Forall_forall in Hwf, Hbeh.
+    assert (Hin : In c (pre ++ c :: post)) by (apply in_or_app; right; left; reflexivity).
+    destruct (Hwf c Hin) as [Hreg (cat & Hcat)]. destruct (Hbeh c Hin) as [Hno Hconv].
+    destruct Hdec as [Hunreg | [[_ Hother] | (m & x & Hm)]].
+    + rewrite Hreg in Hunreg. discriminate.
+    + contradiction.
+    + destruct Hm as [Hreg' Hres]. specialize (Hconv m x Hres).
+      destruct (opt_to_xtext value to_xtext m) as [mt|] eqn:Hmt; [|contradiction].
+      exists pre, c, post, m, x, mt, cat.
+      split; [reflexivity|]. split; [exact Hpre|]. split; [split; assumption|]. split; [exact Hmt|exact Hcat].
+Qed.
+
+(* ---- sentence 2: the saved result --------------------------------------------------------------------------- *)
+
+Lemma route_to_category_unnamed b prev cat mtch operand extra evs :
+  b_result_name b = [] -> ro_saved (route_to_category' b prev cat mtch operand extra evs) = None.
+Proof.
+  intros Hn. unfold route_to_category. destruct (N.eqb cat no_uuid); [reflexivity|].
+  destruct (find_category (b_categories b) cat); [|reflexivity]. rewrite Hn. reflexivity.
+Qed.
+
+Lemma route_switch_unnamed b operand_tpl cases default prev :
+  b_result_name b = [] -> ro_saved (route_switch' b operand_tpl cases default prev) = None.
+Proof.
+  intros Hn. unfold route_switch.
+  destruct (eval_tpl operand_tpl) as [operand e0].
+  destruct (match_case' operand cases) as [evs1 m].
+  destruct m as [| | |t c0 x]; try reflexivity.
+  - destruct (N.eqb no_uuid no_uuid && negb (N.eqb default no_uuid)); apply route_to_category_unnamed; exact Hn.
+  - destruct (N.eqb c0 no_uuid && negb (N.eqb default no_uuid)); apply route_to_category_unnamed; exact Hn.
+Qed.
+
+(* the localized category name is what the language fallback of C18 picks for the category's "name", with no base
+   text to fall back on *)
+Lemma category_localized_spec (c : category) :
+  exists out used,
+    spec_pick (lc_contact lc) (lc_allowed lc) (lc_base lc) [[]] (c_tr_name c) out used
+    /\ category_localized (lc_contact lc) (lc_allowed lc) (lc_base lc) (c_tr_name c) = hd [] out.
+Proof.
+  unfold category_localized, get_text1.
+  generalize (get_text_spec (lc_contact lc) (lc_allowed lc) (lc_base lc) [[]] (c_tr_name c)).
+  destruct (get_text _ _ _ _ _) as [out used]. intros H.
+  exists out, used. split; [exact H|reflexivity].
+Qed.
+
+Lemma truncate_short limit t : (length t <= limit)%nat -> truncate limit t = t.
+Proof. intros H. unfold truncate. apply Nat.leb_le in H. rewrite H. reflexivity. Qed.
+
+Lemma truncate_long limit t : (limit < length t)%nat -> truncate limit t = firstn limit t.
+Proof. intros H. unfold truncate. apply Nat.leb_gt in H. rewrite H. reflexivity. Qed.
+
+Lemma switch_result_spec b operand_tpl cases default prev :
+  let operand := operand_of operand_tpl in
+  let input := operand_text operand_tpl in
+  let R := route_switch' b operand_tpl cases default prev in
+  let localized c := category_localized (lc_contact lc) (lc_allowed lc) (lc_base lc) (c_tr_name c) in
+  (* without a result name nothing is saved, whatever happens *)
+  (b_result_name b = [] -> ro_saved R = None)
+  (* a case matched: that category's name, the test's match as value, the operand as input *)
+  /\ (forall pre c post m x mt cat,
+      b_result_name b <> [] ->
+      cases = pre ++ c :: post -> Forall (passed_over operand) pre -> matches operand c m x ->
+      opt_to_xtext value to_xtext m = Some mt -> category_with b (k_cat c) cat ->
+      let r := {| r_name := b_result_name b; r_value := truncate max_result_chars mt; r_category := c_name cat;
+                  r_category_localized := localized cat; r_input := input; r_extra := extra_json x |} in
+      ro_saved R = Some r
+      /\ ro_res R = RExit (c_exit cat) input
+      (* a run_result_changed event is logged (last) exactly when value or category differ from the previous result *)
+      /\ ro_events R = (operand_events operand_tpl ++ flat_map (skip_events operand) pre
+                        ++ arg_events c ++ extra_events c x)
+                       ++ (if result_changed prev r then [EvResultChanged r] else []))
+  (* the default category: the operand itself as value *)
+  /\ (forall cat,
+      b_result_name b <> [] ->
+      Forall (passed_over operand) cases -> category_with b default cat ->
+      let r := {| r_name := b_result_name b; r_value := truncate max_result_chars input; r_category := c_name cat;
+                  r_category_localized := localized cat; r_input := input; r_extra := None |} in
+      ro_saved R = Some r /\ ro_res R = RExit (c_exit cat) input)
+  (* no category: nothing saved *)
+  /\ (Forall (passed_over operand) cases -> default = no_uuid -> ro_saved R = None).
+Proof.
+  cbn zeta. split; [|split; [|split]].
+  - apply route_switch_unnamed.
+  - intros pre c post m x mt cat Hn Hc Hpre Hm Hmt Hcat.
+    destruct (switch_first_match_spec b operand_tpl cases default prev) as (H1 & _).
+    rewrite (H1 pre c post m x mt cat Hc Hpre Hm Hmt Hcat).
+    unfold through, result_for, named. destruct (b_result_name b) as [|ch name] eqn:Hname; [contradiction|].
+    cbn [ro_saved ro_res ro_events andb].
+    repeat split; reflexivity.
+  - intros cat Hn Hall Hcat.
+    destruct (switch_first_match_spec b operand_tpl cases default prev) as (_ & H2 & _).
+    rewrite (H2 cat Hall Hcat).
+    unfold through, result_for, named. destruct (b_result_name b) as [|ch name] eqn:Hname; [contradiction|].
+    split; reflexivity.
+  - intros Hall Hd.
+    destruct (switch_first_match_spec b operand_tpl cases default prev) as (_ & _ & H3 & _).
+    rewrite (H3 Hall Hd). reflexivity.
+Qed.
+
+(* ---- sentence: "a timeout resume leaves by the wait's timeout category" --------------------------------------- *)
+
+(* whatever the router (switch: whatever its cases, operand and default; random: whatever the draw): the node is left
+   by the exit of the timeout category; the result (if named) has the time of the timeout as value and no input; the
+   segment carries no operand *)
+Lemma timeout_spec site flow_nodes nd r d timed_out_on prev u c :
+  n_router nd = Some r ->
+  b_timeout (router_base r) = Some u -> category_with (router_base r) u c -> c_exit c <> no_uuid ->
+  let b := router_base r in
+  let res := result_for b c timed_out_on [] None in
+  let v := visit' site flow_nodes nd true d timed_out_on prev in
+  route_timeout' b timed_out_on prev = through b prev c timed_out_on [] None []
+  /\ vo_outcome v = NLeft
+  /\ vo_step_exit v = c_exit c
+  /\ vo_saved v = (if named b then Some res else None)
+  /\ vo_events v = (if named b && result_changed prev res then [EvResultChanged res] else [])
+  /\ (forall ex op dest, vo_segment v = Some (ex, op, dest) -> ex = c_exit c /\ op = []).
+Proof.
+  intros Hr Ht Hcat Hex. cbn zeta.
+  apply category_with_find in Hcat. destruct Hcat as [Hne Hf].
+  destruct (route_timeout_spec (router_base r) timed_out_on prev) as [_ Hto].
+  specialize (Hto u c Ht Hne Hf).
+  split; [exact Hto|].
+  assert (Hres : ro_res (router_out r true d timed_out_on prev) = RExit (c_exit c) []).
+  { unfold router_out. rewrite Hto. reflexivity. }
+  unfold visit. rewrite (pick_left nd r true d timed_out_on prev (c_exit c) [] Hr Hres Hex).
+  cbn [po_kind po_step_exit po_saved po_events vo_outcome vo_step_exit vo_saved vo_events vo_segment].
+  unfold router_out. rewrite Hto. cbn [through ro_saved ro_events app].
+  repeat split.
+  - unfold segment_of in H. cbn [po_exit po_operand] in H.
+    destruct (find_exit (n_exits nd) (c_exit c)) as [e|] eqn:He; [|discriminate].
+    destruct (negb (N.eqb (e_dest e) no_uuid) && existsb (N.eqb (e_dest e)) flow_nodes); [|discriminate].
+    inversion H; subst. apply find_exit_In in He. apply He.
+  - unfold segment_of in H. cbn [po_exit po_operand] in H.
+    destruct (find_exit (n_exits nd) (c_exit c)) as [e|] eqn:He; [|discriminate].
+    destruct (negb (N.eqb (e_dest e) no_uuid) && existsb (N.eqb (e_dest e)) flow_nodes); [|discriminate].
+    inversion H; subst. reflexivity.
+Qed.
+
+(* ---- sentence: "a random router [leaves] by category floor(r*n) for its random draw r" ------------------------- *)
+
+Lemma draw_Q_lt_1 d : (draw_Q d < 1)%Q <-> d_mant d < 10 ^ d_scale d.
+Proof.
+  unfold Qlt, draw_Q. cbn [Qnum Qden]. pose proof (pow10_pos (d_scale d)) as Hp.
+  rewrite Z2Pos.id by lia. lia.
+Qed.
+
+Lemma draw_Q_nonneg d : (0 <= draw_Q d)%Q.
+Proof. unfold Qle, draw_Q. cbn [Qnum Qden]. lia. Qed.
+
+Lemma random_spec b d prev :
+  let n := N.of_nat (length (b_categories b)) in
+  let idx := random_index d n in
+  (0 <= draw_Q d < 1)%Q -> 0 < n ->
+  Qfloor (draw_Q d * inject_Z (Z.of_N n)) = Z.of_N idx
+  /\ idx < n
+  /\ exists c, nth_error (b_categories b) (N.to_nat idx) = Some c
+       (* the category is looked up again by its UUID: the first category carrying the UUID of category idx ... *)
+       /\ (forall c', category_with b (c_uuid c) c' ->
+             route_random' b d prev = through b prev c' (N_to_text idx) (draw_text d) None [])
+       (* ... which is category idx itself when category UUIDs are distinct *)
+       /\ (NoDup (map c_uuid (b_categories b)) -> c_uuid c <> no_uuid ->
+             route_random' b d prev = through b prev c (N_to_text idx) (draw_text d) None []).
+Proof.
+  intros n idx [_ Hr] Hn. apply draw_Q_lt_1 in Hr.
+  destruct (route_random_spec b d prev Hr Hn) as (_ & Hfl & Hlt & c & Hc & Heq).
+  fold n in Hfl, Hlt, Hc, Heq. fold idx in Hfl, Hlt, Hc, Heq.
+  split; [exact Hfl|]. split; [exact Hlt|].
+  exists c. split; [exact Hc|]. split.
+  - intros c' Hcat. apply category_with_find in Hcat. destruct Hcat as [Hne Hf].
+    rewrite Heq. apply route_to_category_found; assumption.
+  - intros Hnd Hne. rewrite Heq. apply route_to_category_found; [exact Hne|].
+    eapply find_category_nth; eassumption.
+Qed.
+
+(* ---- sentence: "a node without a router [leaves] by its first exit" ---------------------------------------------- *)
+
+Lemma no_router_spec site flow_nodes nd is_timeout d timed_out_on prev :
+  n_router nd = None ->
+  let v := visit' site flow_nodes nd is_timeout d timed_out_on prev in
+  vo_outcome v = NLeft /\ vo_saved v = None /\ vo_events v = []
+  /\ match n_exits nd with
+     | e :: _ =>
+         vo_step_exit v = e_uuid e
+         /\ vo_segment v = (if negb (N.eqb (e_dest e) no_uuid) && existsb (N.eqb (e_dest e)) flow_nodes
+                            then Some (e_uuid e, [], e_dest e) else None)
+     | [] => vo_step_exit v = no_uuid /\ vo_segment v = None
+     end.
+Proof.
+  intros Hr. cbn zeta. unfold visit. rewrite (pick_no_router nd is_timeout d timed_out_on prev Hr).
+  destruct (n_exits nd) as [|e rest]; cbn; repeat split; reflexivity.
+Qed.
+
+(* ---- sentence: "a router that selects no category fails the run instead of choosing arbitrarily" ----------------- *)
+
+Lemma no_category_fails_spec site flow_nodes nd b operand_tpl cases d timed_out_on prev :
+  n_router nd = Some (Switch b operand_tpl cases no_uuid) ->
+  Forall (passed_over (operand_of operand_tpl)) cases ->
+  let v := visit' site flow_nodes nd false d timed_out_on prev in
+  vo_outcome v = NRunFailed /\ vo_step_exit v = no_uuid /\ vo_segment v = None /\ vo_saved v = None
+  /\ vo_events v = operand_events operand_tpl ++ flat_map (skip_events (operand_of operand_tpl)) cases ++ [EvFailure].
+Proof.
+  intros Hr Hall. cbn zeta. unfold visit.
+  rewrite (switch_without_category_fails nd b operand_tpl cases d timed_out_on prev Hr Hall).
+  cbn. repeat split; reflexivity.
+Qed.
+
+(* the same for any router and any way of ending up without a category (the empty exit) *)
+Lemma no_category_fails_general site flow_nodes nd r is_timeout d timed_out_on prev operand :
+  n_router nd = Some r ->
+  ro_res (router_out r is_timeout d timed_out_on prev) = RExit no_uuid operand ->
+  let v := visit' site flow_nodes nd is_timeout d timed_out_on prev in
+  vo_outcome v = NRunFailed /\ vo_step_exit v = no_uuid /\ vo_segment v = None
+  /\ vo_events v = ro_events (router_out r is_timeout d timed_out_on prev) ++ [EvFailure].
+Proof. apply visit_without_category_fails. Qed.
+
+(* ---- consistency: exit in the path = exit in the segment = exit of the saved category ---------------------------- *)
+
+Lemma consistency_spec site flow_nodes nd is_timeout d timed_out_on prev :
+  let v := visit' site flow_nodes nd is_timeout d timed_out_on prev in
+  (* when the node is left *)
+  (vo_outcome v = NLeft ->
+     (* a logged segment carries the exit of the path and that exit's destination, a node of the flow *)
+     (forall ex op dest, vo_segment v = Some (ex, op, dest) ->
+        ex = vo_step_exit v /\ dest <> no_uuid /\ In dest flow_nodes
+        /\ exists e, exit_with nd ex e /\ e_dest e = dest)
+     (* and a segment is logged whenever the exit of the path leads to a node of the flow *)
+     /\ (forall e, exit_with nd (vo_step_exit v) e -> e_dest e <> no_uuid -> In (e_dest e) flow_nodes ->
+         exists op, vo_segment v = Some (vo_step_exit v, op, e_dest e))
+     (* a router never leaves by the empty exit *)
+     /\ (n_router nd <> None -> vo_step_exit v <> no_uuid)
+     (* the saved result names a category of the router whose exit is the exit of the path *)
+     /\ (forall res, vo_saved v = Some res ->
+         exists r c, n_router nd = Some r /\ In c (b_categories (router_base r))
+           /\ r_category res = c_name c /\ c_exit c = vo_step_exit v
+           /\ r_name res = b_result_name (router_base r)
+           /\ r_category_localized res
+              = category_localized (lc_contact lc) (lc_allowed lc) (lc_base lc) (c_tr_name c)))
+  (* when it is not left the path has no exit and no segment is logged *)
+  /\ (vo_outcome v <> NLeft -> vo_step_exit v = no_uuid /\ vo_segment v = None).
+Proof.
+  cbn zeta. unfold visit.
+  pose proof (pick_consistency flow_nodes nd is_timeout d timed_out_on prev) as Hpc. cbn zeta in Hpc.
+  destruct (po_kind (pick_node_exit' nd is_timeout d timed_out_on prev)) eqn:Hk.
+  - destruct site; cbn [vo_outcome vo_step_exit vo_segment]; (split; [discriminate|intros _; split; reflexivity]).
+  - cbn [vo_outcome vo_step_exit vo_segment]. split; [discriminate|intros _; split; reflexivity].
+  - cbn [vo_outcome vo_step_exit vo_segment]. split; [discriminate|]. intros _. split; [|reflexivity].
+    (* PkFailed: the step was not left *)
+    unfold pick_node_exit in *. destruct (n_router nd) as [r|].
+    + destruct (ro_res (if is_timeout then _ else _)) as [| |u operand]; cbn [po_kind] in Hk; try discriminate.
+      destruct (N.eqb u no_uuid); [reflexivity|].
+      destruct (find_exit (n_exits nd) u); discriminate.
+    + destruct (find_exit (n_exits nd) _); discriminate.
+  - cbn [vo_outcome vo_step_exit vo_segment vo_saved]. split; [|intros H; contradiction].
+    intros _. destruct (Hpc eq_refl) as (Hseg & Hne & Hsaved).
+    split; [|split; [|split]].
+    + intros ex op dest H. destruct (Hseg ex op dest H) as (H1 & _ & H3 & H4 & e & He & Hin & Hu & Hd).
+      split; [exact H1|]. split; [exact H3|]. split; [exact H4|].
+      exists e. split; [|exact Hd].
+      (* the exit handed on is the first one with the UUID *)
+      apply exit_with_find. subst ex.
+      clear - He Hk. unfold pick_node_exit in *. destruct (n_router nd) as [r|].
+      * destruct (ro_res (if is_timeout then _ else _)) as [| |u operand]; cbn [po_kind] in Hk; try discriminate.
+        destruct (N.eqb u no_uuid); [discriminate|].
+        destruct (find_exit (n_exits nd) u) as [e'|] eqn:Hf; cbn [po_exit po_step_exit] in *; [|discriminate].
+        inversion He; subst. exact Hf.
+      * destruct (n_exits nd) as [|e0 rest]; cbn [find_exit] in *; [discriminate|].
+        rewrite N.eqb_refl in *. cbn [po_exit po_step_exit] in *. rewrite N.eqb_refl. exact He.
+    + intros e He Hd Hin. apply exit_with_find in He.
+      assert (Hpe : po_exit (pick_node_exit' nd is_timeout d timed_out_on prev) = Some e).
+      { clear - He Hk. unfold pick_node_exit in *. destruct (n_router nd) as [r|].
+        - destruct (ro_res (if is_timeout then _ else _)) as [| |u operand]; cbn [po_kind] in Hk; try discriminate.
+          destruct (N.eqb u no_uuid); [discriminate|].
+          destruct (find_exit (n_exits nd) u) as [e'|] eqn:Hf; cbn [po_exit po_step_exit] in *;
+            rewrite Hf in He; [exact He|discriminate].
+        - destruct (n_exits nd) as [|e0 rest]; cbn [find_exit] in *; [discriminate|].
+          rewrite N.eqb_refl in *. cbn [po_exit po_step_exit] in *. rewrite N.eqb_refl in He. exact He. }
+      unfold segment_of. rewrite Hpe.
+      apply N.eqb_neq in Hd. rewrite Hd. cbn [negb andb].
+      assert (Hex : existsb (N.eqb (e_dest e)) flow_nodes = true).
+      { apply existsb_exists. exists (e_dest e). split; [exact Hin|apply N.eqb_refl]. }
+      rewrite Hex. eexists.
+      apply find_exit_In in He. destruct He as [_ Hu]. rewrite Hu. reflexivity.
+    + intros Hnr. destruct (n_router nd) as [r|] eqn:Hr; [|contradiction]. apply (Hne r eq_refl).
+    + exact Hsaved.
+Qed.
+
 End Proofs.
+
+(* ======================================================================================================== *)
+(* The hypotheses of the statements are satisfiable: a concrete instantiation of the oracles and a router     *)
+(* with an erroring case, a non-matching case and two matching cases.                                         *)
+(* ======================================================================================================== *)
+
+Module Demo.
+
+(* values are numbers; a template evaluates to its first code point; every value converts to a one-letter text *)
+Definition ev (t : text) : N * (bool * nat) := (hd 0 t, (false, O)).
+Definition tx (v : N) : option text := Some [v].
+Definition reg (t : test_id) : bool := true.
+(* test 0 always errors; test 1 matches when the operand equals its first argument; any other test matches *)
+Definition tst (t : test_id) (op : N) (args : list N) : test_result N :=
+  match t with
+  | 0 => TError
+  | 1 => TObject (N.eqb op (hd 0 args)) (Some op) ExAbsent
+  | _ => TObject true (Some 7) ExAbsent
+  end.
+Definition lc0 : lctx := {| lc_contact := 0; lc_allowed := []; lc_base := 1 |}.
+
+Definition cat (u : uuid) (name : N) (ex : uuid) : category :=
+  {| c_uuid := u; c_name := [name]; c_exit := ex; c_tr_name := [] |}.
+Definition kase (t : test_id) (arg : N) (c : uuid) : case_def :=
+  {| k_test := t; k_args := [[arg]]; k_tr_args := []; k_cat := c |}.
+
+Definition b0 : base_router :=
+  {| b_result_name := [82]; b_categories := [cat 11 65 21; cat 12 66 22; cat 13 67 23]; b_timeout := Some 12 |}.
+Definition cases0 : list case_def := [kase 0 5 11; kase 1 6 11; kase 1 5 12; kase 2 5 11].
+Definition nd0 (default : uuid) : node :=
+  {| n_router := Some (Switch b0 [5] cases0 default);
+     n_exits := [{| e_uuid := 21; e_dest := 31 |}; {| e_uuid := 22; e_dest := 32 |}; {| e_uuid := 23; e_dest := 0 |}] |}.
+Definition d0 : draw := {| d_mant := 7; d_scale := 1 |}.     (* 0.7 *)
+
+Notation passed := (passed_over N ev reg tst lc0 5).
+
+(* first matching case: the erroring case and the non-matching case are passed over, the third case matches (and so
+   would the fourth) *)
+Example first_match_hypotheses :
+  exists pre c post m x mt ct,
+    cases0 = pre ++ c :: post /\ Forall passed pre /\ pre <> []
+    /\ matches N ev reg tst lc0 5 c m x /\ opt_to_xtext N tx m = Some mt /\ category_with b0 (k_cat c) ct
+    /\ (exists c' m' x', In c' post /\ matches N ev reg tst lc0 5 c' m' x')
+    /\ ro_res (route_switch N ev tx reg tst lc0 640 b0 [5] cases0 13 None) = RExit 22 [5].
+Proof.
+  exists [kase 0 5 11; kase 1 6 11], (kase 1 5 12), [kase 2 5 11], (Some 5), ExAbsent, [5], (cat 12 66 22).
+  split; [reflexivity|]. split.
+  { constructor; [split; [reflexivity|left; reflexivity]|].
+    constructor; [split; [reflexivity|right; exists (Some 5), ExAbsent; reflexivity]|constructor]. }
+  split; [discriminate|]. split; [split; reflexivity|]. split; [reflexivity|]. split.
+  { split; [discriminate|]. exists [cat 11 65 21], [cat 13 67 23]. split; [reflexivity|]. split; [reflexivity|].
+    constructor; [discriminate|constructor]. }
+  split; [|reflexivity].
+  exists (kase 2 5 11), (Some 7), ExAbsent. split; [left; reflexivity|split; reflexivity].
+Qed.
+
+(* default / no category: a router all of whose cases are passed over *)
+Definition cases1 : list case_def := [kase 0 5 11; kase 1 6 11].
+
+Example default_hypotheses :
+  Forall passed cases1 /\ category_with b0 13 (cat 13 67 23)
+  /\ ro_res (route_switch N ev tx reg tst lc0 640 b0 [5] cases1 13 None) = RExit 23 [5]
+  /\ ro_res (route_switch N ev tx reg tst lc0 640 b0 [5] cases1 no_uuid None) = RExit no_uuid [5].
+Proof.
+  split.
+  { constructor; [split; [reflexivity|left; reflexivity]|].
+    constructor; [split; [reflexivity|right; exists (Some 5), ExAbsent; reflexivity]|constructor]. }
+  split; [|split; reflexivity].
+  split; [discriminate|]. exists [cat 11 65 21; cat 12 66 22], []. split; [reflexivity|]. split; [reflexivity|].
+  constructor; [discriminate|]. constructor; [discriminate|constructor].
+Qed.
+
+Example well_formed_hypotheses :
+  well_formed_switch reg b0 cases0 13 /\ tests_behave N ev tx tst lc0 5 cases0.
+Proof.
+  assert (H11 : category_with b0 11 (cat 11 65 21)).
+  { split; [discriminate|]. exists [], [cat 12 66 22; cat 13 67 23]. repeat split; constructor. }
+  assert (H12 : category_with b0 12 (cat 12 66 22)).
+  { split; [discriminate|]. exists [cat 11 65 21], [cat 13 67 23]. split; [reflexivity|]. split; [reflexivity|].
+    constructor; [discriminate|constructor]. }
+  assert (H13 : category_with b0 13 (cat 13 67 23)) by apply default_hypotheses.
+  split; [split|].
+  - repeat constructor; eexists; eassumption.
+  - right. eexists; exact H13.
+  - repeat constructor; try discriminate; intros m x H; inversion H; discriminate.
+Qed.
+
+(* timeout: the router has a wait with timeout category 12 *)
+Example timeout_hypotheses :
+  n_router (nd0 13) = Some (Switch b0 [5] cases0 13) /\ b_timeout b0 = Some 12
+  /\ category_with b0 12 (cat 12 66 22) /\ c_exit (cat 12 66 22) <> no_uuid.
+Proof.
+  split; [reflexivity|]. split; [reflexivity|]. split; [|discriminate].
+  split; [discriminate|]. exists [cat 11 65 21], [cat 13 67 23]. split; [reflexivity|]. split; [reflexivity|].
+  constructor; [discriminate|constructor].
+Qed.
+
+(* random: the draw 0.7 over three categories with distinct UUIDs picks category floor(2.1) = 2 *)
+Example random_hypotheses :
+  (0 <= draw_Q d0 < 1)%Q /\ 0 < N.of_nat (length (b_categories b0))
+  /\ NoDup (map c_uuid (b_categories b0))
+  /\ random_index d0 3 = 2
+  /\ ro_res (route_random lc0 640 b0 d0 None) = RExit 23 [48; 46; 55].
+Proof.
+  split; [split; [apply draw_Q_nonneg|apply draw_Q_lt_1; reflexivity]|].
+  split; [reflexivity|]. split; [|split; reflexivity].
+  repeat constructor; cbn; intuition discriminate.
+Qed.
+
+(* a node is left with a segment and a saved result; a node whose router finds no category fails the run *)
+Example consistency_hypotheses :
+  let v := visit N ev tx reg tst lc0 640 AtVisit [31; 32] (nd0 13) false d0 [] None in
+  vo_outcome v = NLeft /\ vo_step_exit v = 22 /\ vo_segment v = Some (22, [5], 32)
+  /\ exists res, vo_saved v = Some res /\ r_category res = [66].
+Proof. cbn zeta. repeat split. eexists. split; reflexivity. Qed.
+
+Example no_category_hypotheses :
+  n_router {| n_router := Some (Switch b0 [5] cases1 no_uuid); n_exits := n_exits (nd0 13) |}
+  = Some (Switch b0 [5] cases1 no_uuid)
+  /\ Forall passed cases1.
+Proof. split; [reflexivity|apply default_hypotheses]. Qed.
+
+End Demo.
+
+Lemma truncate_spec (limit : nat) (t : text) :
+  ((length t <= limit)%nat -> truncate limit t = t) /\ ((limit < length t)%nat -> truncate limit t = firstn limit t).
+Proof. split; [apply truncate_short|apply truncate_long]. Qed.
